@@ -48,7 +48,7 @@ claim('C14', 'other',
 claim('C02', 'other',
       'Proved kernel + bounded: the 12 integer range validators are proved to accept exactly the XSD value ranges (all integers), the boolean '
       'codec to decode exactly {true,false,1,0} and to round-trip; the bound, length and digit facet validators (raise exactly outside the facet set), '
-      'XsdAtomicRestriction.raw_decode (validators applied once, patterns here or pushed) and raw_encode (the patterns are checked once on the text that is written, whatever the value), first-match union / item-wise list decoding as listed in '
+      'XsdAtomicRestriction.raw_decode (validators applied once; patterns applied here, or - for a union - added to the patterns the restriction steps above have pushed, all of which the union applies) and raw_encode (the patterns are checked once on the text that is written, whatever the value), first-match union / item-wise list decoding as listed in '
       'the evidence. The built-in lexical spaces, whitespace normalisation, count_digits and derived restriction/list/union types are covered by '
       'bounded run-time contracts through the real schema API against reference functions written from XSD Part 2 (boundary catalogue exhaustive, '
       'seeded mutations), including decode value and decode(encode(decode(t))) = decode(t), and the typed decoding options (decimal_type / datetime_types / binary_types, every combination, with the typed round trip); encoding typed values of derived types fails or returns a text of the type.',
@@ -85,14 +85,14 @@ claim('C05', 'other',
 claim('C06', 'other',
       'Proved kernel + bounded: loop-body equivalence of the eager and the lazy loader - for every event kind and every pre-state both loop bodies leave equal '
       'namespace stack, pending declarations and per-node maps (container operations uninterpreted), hence both attach the same in-scope namespaces to every node; '
-      'the limit counter contract of _lazy_iterparse shared with C11. The equality lazy = eager of errors (in order), data and iteration multiset, thin and non-thin, '
-      'is a bounded run-time contract over generated documents (two schema templates, nested and redundant namespace declarations, childless roots, documents beyond the parser block, path-based selection / validation / decoding). Depth 2 reported only.',
+      'the limit counter contract of _lazy_iterparse shared with C11; a statement contract on one parser event of XMLResource.iterfind over a lazy resource (yield exactly at the path depth, release the chunk at the lazy depth for every path depth, test deeper elements against rebuilt XPath nodes). The equality lazy = eager of errors (in order), data and iteration multiset, thin and non-thin, '
+      'is a bounded run-time contract over generated documents (two schema templates, nested and redundant namespace declarations, childless roots, documents beyond the parser block, path-based selection / validation / decoding, paths deeper than the lazy depth, interleaved child names). Depth 2 reported only.',
       'The order in which a lazy resource yields the descendants of a chunk is pinned by the test-suite and differs from document order: compared as multisets.', 'DESIGN.md 5/C06')
 claim('C07', 'other',
       'Proved kernel + bounded: statement contracts on the xsi:nil block and the xsi:type block of XsdElement.raw_decode (nilled <=> nillable and true and no '
       'fixed and empty; error <=> lookup fails or the named type is blocked) and XsdType.is_blocked are proved for all inputs; derivation, abstract, block '
       'defaults, substitution groups are covered by a bounded contract against a reference decision procedure over flag products (mixed two-step derivation chains included); '
-      'XsdComplexType.is_derived is under contract for the complex-content chain (a step of the other method never ends the search); XSD 1.1 type alternatives on inherited attributes are a bounded family.',
+      'XsdComplexType.is_derived is under contract for the complex-content chain (a step of the other method never ends the search); XsdElement.get_attributes is under contract (a simple governing type gets the declaration's attribute group only when it IS the declared type); XSD 1.1 type alternatives on inherited attributes and the attribute sets admitted under every xsi:type are bounded families.',
       'is_derived and get_instance_type are uninterpreted in the proofs and exercised only by the bounded part; XPath tests of type alternatives are elementpath.', 'DESIGN.md 5/C07')
 claim('C08', 'other',
       'Proved kernel + bounded: IdentityCounter.increase (exactly one duplicate error per repeated tuple), KeyrefCounter.increase, reset and '
@@ -123,7 +123,7 @@ claim('C12', 'proof',
       'XMLResource.access_control is proved for all strings: returning normally implies allowed(mode, url, base) with segment-wise containment for '
       'sandbox; only XMLResourceBlocked is raised; is_local_scheme and the local/remote classification are proved exact (exactly one class per URL-like string). '
       'Canonicalisation of spellings (normalize_url, urlsplit, pathlib) is assumed in the proof and exercised by an exhaustive bounded catalogue with an '
-      'audit hook: 5 modes x include/import/redefine/instance hint x 14 spellings, sandbox without an explicit base_url, dotted absolute file URLs, parse() on resource / document objects. the first block of XMLResource.__init__ is proved to leave a sandboxed resource with a base URL or to refuse it, whatever the source kind; XMLResource.get_url is proved to return normalize_url of the mapped location. Propagation obligations '
+      'audit hook: 5 modes x include/import/redefine/instance hint x 14 spellings, sandbox without an explicit base_url (for the main schema, for the package-level functions that build the schema from an instance hint, for namespaces loaded on demand from the locations argument), dotted absolute file URLs, parse() on resource / document objects. the first block of XMLResource.__init__ is proved to leave a sandboxed resource with a base URL or to refuse it, whatever the source kind; XMLResource.get_url is proved to return normalize_url of the mapped location. Propagation obligations '
       '(the base URL of the referring schema reaches every load; get_arguments returns every Argument of the class hierarchy) are decided on the real AST / real objects.',
       'Proved: the decision kernel. Assumed: normalize_url canonicalises, no symlinks, every fetch goes through access_control (dominance is checked by the bounded catalogue, not proved).',
       'DESIGN.md 5/C12')
